@@ -635,7 +635,9 @@ func runC20Walk(tb report.TB, rep *report.Reporter, c c20WalkCase) {
 	me, _ := r.Cache.GetUserIdentity()
 	authors = append(authors, me)
 	for i := 1; i < c.NIdent; i++ {
-		ic, err := r.Cache.Identities().NewRaw(fmt.Sprintf("walker %d", i), "w@example.org", "", "", nil, nil)
+		// homonyms (one person, one identity per machine) and equal titles: any ordering of a served list by a
+		// displayed attribute has ties
+		ic, err := r.Cache.Identities().NewRaw(fmt.Sprintf("walker %d", i%3), "w@example.org", "", "", nil, nil)
 		if err != nil {
 			tb.Fatalf("harness: %v", err)
 		}
@@ -644,7 +646,7 @@ func runC20Walk(tb report.TB, rep *report.Reporter, c c20WalkCase) {
 	labelPool := []string{"bug", "ui", "prod", "Good first issue", "wontfix", "docs"}
 	var bugIds []string
 	for i := 0; i < c.NBugs; i++ {
-		bc, _, err := r.Cache.Bugs().NewRaw(authors[i%len(authors)], int64(1000+i), fmt.Sprintf("walk bug %d", i), "m", nil, nil)
+		bc, _, err := r.Cache.Bugs().NewRaw(authors[i%len(authors)], int64(1000+i), fmt.Sprintf("walk bug %d", i%4), "m", nil, nil)
 		if err != nil {
 			tb.Fatalf("harness: %v", err)
 		}
